@@ -245,10 +245,18 @@ pub fn gen_doc(rng: &mut Rng, n: usize) -> Vec<Node> {
                 } else {
                     format!("{r}~{sy}")
                 };
+                // a rect may also give the far edge or the centre of an axis (x2 / cx, y2 / cy): attributes that
+                // the position pipeline consumes; the reference in them is resolved like any other
+                let (mut xa, mut ya) = (xa, ya);
+                let (mut offx, mut offy) = (0.0, 0.0);
+                if shape == "rect" {
+                    match rng.below(4) { 0 => { xa = "x2"; offx = w; } 1 => { xa = "cx"; offx = w / 2.0; } _ => {} }
+                    match rng.below(4) { 0 => { ya = "y2"; offy = h; } 1 => { ya = "cy"; offy = h / 2.0; } _ => {} }
+                }
                 el.push(xa, &xs);
                 el.push(ya, &ys);
                 size_attrs(rng, &mut el, shape, w, h);
-                let (x, y) = if rectlike { (vx, vy) } else { (vx - w / 2.0, vy - h / 2.0) };
+                let (x, y) = if rectlike { (vx - offx, vy - offy) } else { (vx - w / 2.0, vy - h / 2.0) };
                 expect = [x, y, x + w, y + h];
                 fname = "axis:scalar".to_string();
             }
